@@ -687,7 +687,13 @@ func (env *SpecEnv) ident(name string) SpecVal {
 				}
 			}
 		}
-		specFail("iter: the current loop is not a range-over-slice loop")
+		// a counting loop `for i := 0; i < n; i++`: the counter is the number of completed iterations
+		if a := countingLoopCell(fx.fn, env.loop); a != nil {
+			if v, ok := env.st.cells[a]; ok {
+				return SpecVal{T: v}
+			}
+		}
+		specFail("iter: the current loop is neither a range-over-slice loop nor a counting loop from 0")
 	}
 	switch name {
 	case "MaxUint64":
@@ -1064,6 +1070,22 @@ func (env *SpecEnv) call(x SCall) SpecVal {
 			return SpecVal{T: And(App(">=", SBool, ref, env.old.nextRef), App("<", SBool, ref, env.st.nextRef))}
 		}
 		return SpecVal{T: App(">=", SBool, ref, env.old.nextRef)}
+	case "deferred":
+		// deferred(F): at this point a deferred call of F is registered on EVERY path that reaches here (it will run
+		// whichever way the function returns from now on). Decided on the symbolic defer stack, not by the solver.
+		id, isIdent := x.Args[0].(SIdent)
+		if len(x.Args) != 1 || !isIdent {
+			specFail("deferred(F) takes a function name")
+		}
+		for _, d := range env.state().defers {
+			if _, conditional := env.state().dguard[d]; conditional {
+				continue
+			}
+			if calleeMatches(spawnKey(d.Common()), id.Name) {
+				return SpecVal{T: TTrue}
+			}
+		}
+		return SpecVal{T: TFalse}
 	case "freshiter":
 		// freshiter(x): the object x refers to was allocated during the iteration whose end is being examined
 		if env.head == nil || env.head.nextRef.S == "" {
@@ -1352,4 +1374,62 @@ func boundIn(term string, binders []string) bool {
 		}
 	}
 	return true
+}
+
+// countingLoopCell recognises `for i := 0; i < n; i++ { ... }` (i not address-taken, assigned nowhere else): the header
+// tests `i < n`, the only store to i inside the loop is i+1, the only store outside is the constant 0. Returns i's cell.
+func countingLoopCell(fn *ssa.Function, li *loopInfo) *ssa.Alloc {
+	var cand *ssa.Alloc
+	for _, in := range li.header.Instrs {
+		cmp, ok := in.(*ssa.BinOp)
+		if !ok || cmp.Op != token.LSS {
+			continue
+		}
+		ld, ok := cmp.X.(*ssa.UnOp)
+		if !ok || ld.Op != token.MUL {
+			continue
+		}
+		if a, ok := ld.X.(*ssa.Alloc); ok && !a.Heap && a.Comment != "rangeindex" {
+			cand = a
+		}
+	}
+	if cand == nil || cand.Referrers() == nil {
+		return nil
+	}
+	inside, outside := 0, 0
+	for _, r := range *cand.Referrers() {
+		switch x := r.(type) {
+		case *ssa.Store:
+			if x.Addr != ssa.Value(cand) {
+				return nil
+			}
+			if li.blocks[x.Block()] {
+				add, ok := x.Val.(*ssa.BinOp)
+				if !ok || add.Op != token.ADD {
+					return nil
+				}
+				l, ok := add.X.(*ssa.UnOp)
+				if !ok || l.X != ssa.Value(cand) {
+					return nil
+				}
+				if c, ok := add.Y.(*ssa.Const); !ok || c.Int64() != 1 {
+					return nil
+				}
+				inside++
+			} else {
+				c, ok := x.Val.(*ssa.Const)
+				if !ok || c.Value == nil || c.Int64() != 0 {
+					return nil
+				}
+				outside++
+			}
+		case *ssa.UnOp, *ssa.DebugRef:
+		default:
+			return nil
+		}
+	}
+	if inside != 1 || outside != 1 {
+		return nil
+	}
+	return cand
 }
